@@ -140,6 +140,38 @@ def check_case(case):
         spec = with_phases(spec, PH2, {case["who"]: case["pc"]})
         if case.get("nophase"):  # a configured component in a system WITHOUT system phases: the unnamed phase is not in its configuration
             spec["phases"] = None
+    if case["fam"] == "toml":
+        # one component comes from a .toml file with a [limits] table; every OTHER component relies on the defaults and must not start warning
+        import os, toml
+        from ..common import workdir
+        from ..sysmodel import KINDS
+        from sysloss.system import System
+        from sysloss.components import Source, ILoad, RLoss
+        kind, section, P = case["kind"], case["section"], case["P"]
+        pth = os.path.join(workdir("c09"), "c.toml")
+        open(pth, "w").write(toml.dumps({section: P, "limits": case["L"]}))
+        comp = KINDS[kind].from_file("X", fname=pth)
+        s = System("toml", Source("S", vo=5.0, rs=0.1))
+        s.add_comp("S", comp=comp)
+        if kind not in LOADS:
+            s.add_comp("X", comp=ILoad("L", ii=0.05))
+        s.add_comp("S", comp=RLoss("R2", rs=1.0))
+        s.add_comp("R2", comp=ILoad("L2", ii=0.07))
+        s2 = System("other", Source("S", vo=5.0))      # a second system, built afterwards, without any limits at all
+        s2.add_comp("S", comp=RLoss("R", rs=2.0))
+        s2.add_comp("R", comp=ILoad("L", ii=0.09))
+        for sysx, names in ((s, ("S", "R2", "L2", "L")), (s2, ("S", "R", "L"))):
+            obs = observe(quiet_call(sysx.solve)[0])
+            for nm in names:
+                if ("", nm) in obs and str(obs[("", nm)].get("Warnings", "")) != "" and not (sysx is s and nm == "L" and kind in LOADS):
+                    res.v(("C09.default-limits-warn", "after-toml-limits", kind), "%s warns %r although it has no limits of its own (the file limits of X were %r)" % (nm, obs[("", nm)]["Warnings"], case["L"]))
+        xr = observe(quiet_call(s.solve)[0])[("", "X")]
+        exp = expected_tokens(dict(k=kind, pc=None), quantities(xr, 25.0), case["L"], "")
+        if set(str(xr.get("Warnings", "")).split()) != exp:
+            res.v(("C09.tokens", kind, "toml-limits"), "X loaded with limits %r warns %r, expected %r" % (case["L"], xr.get("Warnings"), sorted(exp)))
+        res.stats["flips"] += 1 if exp else 0
+        res.nontrivial = 1
+        return res
     if case["fam"] == "huge":   # quantities above the documented defaults (1e6) with only ONE other key supplied
         from ..sysmodel import KINDS
         comps = [dict(n="S", k="Source", a=dict(vo=3.0e6, rs=0.0), p=[], g="", r=""),
@@ -209,7 +241,7 @@ def check_case(case):
                     df, _ = quiet_call(s.solve, ta=ta)
                     obs = observe(df)
                     res.stats["evaluations"] += 1
-                    if hows[0] in ("below-min", "above-max") and not neg and any(c["k"] == "PMux" for c in sp["comps"]):
+                    if hows[0] in ("below-min", "above-max", "on-min") and not neg and (any(c["k"] == "PMux" for c in sp["comps"]) or len(sp["comps"]) <= 2):
                         # the warnings survive a save / load round trip (each component is reloaded with ITS limits)
                         import os
                         from ..common import workdir
@@ -260,6 +292,10 @@ def gen_cases(tier):
             for c in spec["comps"][1:]:
                 if (c["k"] in PHASE_LIST_KINDS or c["k"] in LOADS) and (n == 1 or c["p"] != ["S"]):
                     yield dict(fam="one", f=f, pal=pal, pol=1, ta=25.0, who=c["n"], pc=pc_options(c, PH2, False)[1], replace=True)
+    for kind, section, P in (("RLoss", "rloss", dict(rs=0.7)), ("Converter", "converter", dict(vo=3.3, eff=0.85)), ("PSwitch", "pswitch", dict(rs=0.2)),
+                             ("ILoad", "iload", dict(ii=0.1)), ("VLoss", "vloss", dict(vdrop=0.3)), ("Rectifier", "rectifier", dict(vdrop=0.25))):
+        for L in ({"io": [0.0, 1e-3]}, {"vo": [0.0, 0.5], "vi": [0.0, 1.0]}, {"ii": [0.0, 1e-3], "tp": [-10.0, 20.0]}, {"pl": [0.0, 1e-9], "pi": [0.0, 1e-6]}):
+            yield dict(fam="toml", f=[], pal=pal, pol=1, ta=25.0, kind=kind, section=section, P=P, L=L)
     for kind, args in (("RLoss", dict(rs=0.001)), ("VLoss", dict(vdrop=1.0)), ("LinReg", dict(vo=2.9e6, vdrop=1.0)), ("PSwitch", dict(rs=0.001)),
                        ("PMux", dict(rs=0.001)), ("Rectifier", dict(vdrop=1.0)), ("Converter", dict(vo=2.0e6, eff=0.9))):
         yield dict(fam="huge", f=[], pal=pal, pol=1, ta=25.0, kind=kind, args=args)
